@@ -298,6 +298,28 @@ def render_workspace(nodes, ws, trace=None, r=None, file_contents=None):
     by_pkg = {}
     for nd in nodes:
         by_pkg.setdefault(nd["pkg"], []).append(nd)
+    # declared outputs (a function of the graph, not of the random stream, so that model lines and references do not move): one
+    # target in three gets a directory output of its own; a target and a direct or second-level dependency (through targets
+    # only) in the same package declare the SAME file output -- legal, they are ordered -- which makes the output-conflict
+    # analysis walk their ancestor sets before any query or build looks at the graph
+    extra = {}
+    for i, nd in enumerate(nodes):
+        if nd["kind"] == "a":
+            continue
+        if i % 3 == 0:
+            extra.setdefault(i, []).append("dir::dd_%s" % nd["name"])
+        seen = []
+        for d in nd["deps"]:
+            if nodes[d]["kind"] != "a":
+                seen.append(d)
+                seen += [e for e in nodes[d]["deps"] if nodes[e]["kind"] != "a"]
+        for d in seen:
+            if d != i and nodes[d]["pkg"] == nd["pkg"] and (i + d) % 2 == 0:
+                name = "shared_%s_%s.txt" % (nodes[d]["name"], nd["name"])
+                extra.setdefault(i, []).append(name)
+                extra.setdefault(d, []).append(name)
+                break
+    idx_of = {id(nd): i for i, nd in enumerate(nodes)}
     for p in PKGS:
         os.makedirs(os.path.join(ws, p), exist_ok=True)
     for pkg, nds in by_pkg.items():
@@ -311,7 +333,12 @@ def render_workspace(nodes, ws, trace=None, r=None, file_contents=None):
             cmd = "true"
             if trace:
                 cmd = 'echo "%s" >> "%s"' % (label_of(nd), trace)
+            outs = extra.get(idx_of[id(nd)], [])
+            if outs:
+                cmd = "; ".join([("mkdir -p %s" % o[5:]) if o.startswith("dir::") else ("touch %s" % o) for o in outs] + [cmd])
             t = {"name": nd["name"], "command": cmd}
+            if outs:
+                t["outputs"] = outs
             if nd["deps"]:
                 t["dependencies"] = [label_of(nodes[d]) for d in nd["deps"]]
             if nd["tags"]:
